@@ -2400,12 +2400,26 @@ func (d *c17d_bn254) pts2(v []c17P2_bn254) []curve.G2Affine {
 
 func (d *c17d_bn254) updReprs(p *c17Upd_bn254) []mpcsetup.ValueUpdate {
 	var r []mpcsetup.ValueUpdate
+	// a single value may be handed over by value or by pointer (both documented); the form is fixed per case by the challenge
+	form := byte(0)
+	if len(p.challenge) > 0 {
+		form = p.challenge[0]
+	}
 	if len(p.g1p) > 0 {
 		a, b := p.g1p[0].P, p.g1n[0].P
-		r = append(r, mpcsetup.ValueUpdate{Previous: &a, Next: &b})
+		if form&1 == 0 {
+			r = append(r, mpcsetup.ValueUpdate{Previous: &a, Next: &b})
+		} else {
+			r = append(r, mpcsetup.ValueUpdate{Previous: a, Next: b})
+		}
 	}
 	if len(p.g2p) > 0 {
-		r = append(r, mpcsetup.ValueUpdate{Previous: p.g2p[0].P, Next: p.g2n[0].P})
+		a, b := p.g2p[0].P, p.g2n[0].P
+		if form&2 == 0 {
+			r = append(r, mpcsetup.ValueUpdate{Previous: &a, Next: &b})
+		} else {
+			r = append(r, mpcsetup.ValueUpdate{Previous: a, Next: b})
+		}
 	}
 	if len(p.v1p) > 0 {
 		r = append(r, mpcsetup.ValueUpdate{Previous: d.pts1(p.v1p), Next: d.pts1(p.v1n)})
